@@ -164,6 +164,11 @@ def run(chk):
             Xa = g.normal(size=(S, Fr, 2)) * 1.5 + np.asarray(ubm.means)[g.integers(0, 2, size=S)][:, None, :]
             n0 = r.choice([k for k in range(1, S) if 2 * k != S]) if rd % 4 == 0 else S // 2      # classes of unequal size in every other FA round
             ya = np.array([0] * n0 + [1] * (S - n0))
+            if rd % 4 == 2:
+                # a number of classes that is not a power of two (3 classes of 1-3 sessions; in the thorough tier also 5)
+                S = 6
+                Xa = g.normal(size=(S, Fr, 2)) * 1.5 + np.asarray(ubm.means)[g.integers(0, 2, size=S)][:, None, :]
+                ya = np.array([0, 1, 1, 2, 2, 2]) if (chk.tier == "quick" or rd % 8 == 2) else np.array([0, 1, 2, 3, 4, 4])
             g.shuffle(ya)
             for kind in ("isv", "jfa"):
                 def f_ref(kind=kind):
